@@ -23,6 +23,7 @@ type Proto struct {
 	CtxType    *types.Named           // cTx
 	Loaders    map[*ssa.Function]bool // functions that (transitively, through static module calls) load Router.tree
 	DirectLoad map[*ssa.Function]bool
+	guardSeen map[*ssa.Function]bool
 }
 
 type protoSite struct {
@@ -236,7 +237,119 @@ func (p *Proto) txnGuardFacts(fn *ssa.Function, b *ssa.BasicBlock) (write, live 
 					live = true
 				}
 			}
+			// err := txn.check(mutation) ... err == nil: a guard helper of the module on the same transaction
+			if isNilConst(y) && ((bo.Op.String() == "==" && f.Val) || (bo.Op.String() == "!=" && !f.Val)) {
+				if c, ok := x.(*ssa.Call); ok && len(fn.Params) > 0 {
+					if g := c.Call.StaticCallee(); g != nil && p.w.InModule(g) && len(g.Blocks) > 0 && g != fn && len(c.Call.Args) > 0 && c.Call.Args[0] == ssa.Value(fn.Params[0]) {
+						gl, wk := p.guardSummary(g)
+						if gl {
+							live = true
+						}
+						if wk >= 0 && wk < len(c.Call.Args) {
+							if v, isConst := constBool(c.Call.Args[wk]); isConst && v {
+								write = true
+							}
+						}
+						if wk == -2 {
+							write = true
+						}
+					}
+				}
+			}
 		}
+	}
+	return
+}
+
+// guardSummary describes a guard helper g(txn, ...) error: liveOnReturn — every return of g lies where rootTxn != nil is
+// known (the settled case panics); writeParam — index of a bool parameter k such that every `return nil` lies where
+// txn.write is known or k is known false (-2: where txn.write is known, unconditionally; -1: neither).
+func (p *Proto) guardSummary(g *ssa.Function) (liveOnReturn bool, writeParam int) {
+	if p.guardSeen == nil {
+		p.guardSeen = map[*ssa.Function]bool{}
+	}
+	if p.guardSeen[g] {
+		return false, -1
+	}
+	p.guardSeen[g] = true
+	defer delete(p.guardSeen, g)
+	liveOnReturn, writeParam = true, -2
+	nret := 0
+	for _, b := range g.Blocks {
+		if len(b.Instrs) == 0 {
+			continue
+		}
+		rt, ok := b.Instrs[len(b.Instrs)-1].(*ssa.Return)
+		if !ok {
+			continue
+		}
+		nret++
+		wr, lv := p.txnGuardFacts(g, b)
+		if !lv {
+			liveOnReturn = false
+		}
+		if len(rt.Results) == 0 {
+			writeParam = -1
+			continue
+		}
+		res := rt.Results[len(rt.Results)-1]
+		if !isNilConst(res) {
+			if _, isConst := res.(*ssa.Const); !isConst {
+				if _, isLoad := res.(*ssa.UnOp); !isLoad { // a sentinel error loaded from a package variable is "not nil"
+					writeParam = -1
+				}
+			}
+			continue
+		}
+		if wr {
+			continue
+		}
+		// or a bool parameter known false here; a merge block is judged edge by edge (`if mutation && !txn.write {...}; return nil`)
+		k := -1
+		for _, f := range factsAtBlock(b) {
+			if prm, ok := f.Cond.(*ssa.Parameter); ok && !f.Val {
+				k = paramIndex(g, prm)
+			}
+		}
+		if k < 0 && len(b.Preds) > 1 {
+			all := true
+			for _, q := range b.Preds {
+				fs := factsAtBlock(q)
+				if ef, ok := edgeFact(q, b); ok {
+					fs = append(fs, ef)
+				}
+				okEdge := false
+				for _, f := range fs {
+					f = normFact(f)
+					if isLoadOfRecvField(g, f.Cond, p.Write) && f.Val {
+						okEdge = true
+					}
+					if prm, ok := f.Cond.(*ssa.Parameter); ok && !f.Val {
+						if k < 0 || k == paramIndex(g, prm) {
+							k = paramIndex(g, prm)
+							okEdge = true
+						}
+					}
+				}
+				if !okEdge {
+					all = false
+				}
+			}
+			if !all {
+				k = -1
+			}
+		}
+		switch {
+		case k < 0:
+			writeParam = -1
+		case writeParam == -2 || writeParam == k:
+			writeParam = k
+		default:
+			writeParam = -1
+		}
+	}
+	if nret == 0 {
+		return false, -1
 	}
 	return
 }
